@@ -163,6 +163,7 @@ pub fn lipsum(
     n: Option<usize>,
     kwargs: minijinja::value::Kwargs,
 ) -> Result<Value, Error> {
+    const MAX_LIPSUM_WORDS: usize = 100_000;
     #[rustfmt::skip]
     const LIPSUM_WORDS: &[&str] = &[
         "a", "ac", "accumsan", "ad", "adipiscing", "aenean", "aliquam",
@@ -203,6 +204,13 @@ pub fn lipsum(
     let html: Option<bool> = kwargs.get("html")?;
     let html = html.unwrap_or(false);
     let n = n.or(n_kwargs).unwrap_or(5);
+    // refuse to generate absurd amounts of text
+    if !matches!(n.checked_mul(min.max(max).max(1)), Some(words) if words <= MAX_LIPSUM_WORDS) {
+        return Err(Error::new(
+            ErrorKind::InvalidOperation,
+            "lipsum text is too large",
+        ));
+    }
     let mut rv = String::new();
 
     let rng = crate::rand::XorShiftRng::for_state(state);
